@@ -3,13 +3,15 @@ import HyperModel.Proofs.Address
 /-!
 # C28 Address text encoding round-trips and rejects malformed input
 
-Model: `Model/Address.lean` = `codec/address.go` **with** `fixes/C28-address-length-check.patch`.
+Model: `Model/Address.lean` = `codec/address.go` as of /repo commit 8bfec18 ("reject address
+strings whose payload is not exactly AddressLen bytes" = `fixes/C28-address-length-check.patch`).
 `H` is `hashing.Checksum(·, checksumLen)` (SHA-256 tail), an arbitrary function returning
 `checksumLen` bytes.  Strings and byte slices are lists of bytes (`Nat < 256`).
 
-On the unrepaired code `parse_accepts_only_full_length` is false: `0x010203 ++ H(010203)`
-is accepted as the address `010203 00…00` (re-demonstrated on the Go code by the harness
-corpus on every run; `parse_rejects_wrong_length` is the repaired behaviour).
+`parse_accepts_only_full_length` was violated before /repo 8bfec18: `0x010203 ++ H(010203)`
+was accepted as the address `010203 00…00`.  The witness stays first in the harness corpus (it
+is now rejected with `ErrInvalidSize`; a regression is flagged by the oracle key
+`wrong-length-payload-accepted`); `parse_rejects_wrong_length` states the current behaviour.
 -/
 namespace HyperModel.Props.C28
 open HyperModel.Address HyperModel.Proofs.Address
@@ -123,7 +125,7 @@ theorem format_injective {H : Bytes → Bytes} (hH : ChecksumFn H) (a b : Bytes)
   rw [h1] at h2
   injection h2
 
-/-- wrong length with a valid checksum (the defect of the unrepaired code) is rejected -/
+/-- wrong length with a valid checksum (accepted before /repo 8bfec18) is rejected -/
 theorem parse_rejects_wrong_length {H : Bytes → Bytes} (hH : ChecksumFn H) (s p : Bytes)
     (hd : hexDecode (stripPrefix s) = some (p ++ H p)) (hl : p.length ≠ addressLen) :
     parse H s = .error .size := by
